@@ -32,7 +32,7 @@ META = {
                   "any strict position other than unseal-with-its-key/seq blames with the seal's label; "
                   "`(fun x => F[x]) | forall a. a -> T` blames positively for every strict frame F), "
                   "C11_fundamental / C11_parametric_erasure_partial / C11_parametric_transparent / C11_parametric_(annotation_)"
-                  "same_result(2) / C11_export_same / C11_parametric_annotation_same_export2 (for every term accepted by the syntactic criterion has_ty/passes_only — quantified values only "
+                  "same_result(2) / C11_parametric_same_export (type and row variables) / C11_export_same / C11_parametric_annotation_same_export2 (for every term accepted by the syntactic criterion has_ty/passes_only — quantified values only "
                   "bound, passed, stored in arrays/records, returned, seq'ed — whatever the bare run produces, the run under "
                   "`forall a... . T` produces an outcome related by a seal-erasure relation that is a congruence on closures, "
                   "arrays and records; equal at base types and equal exported data (what `nickel export` prints, values and errors) at "
@@ -49,8 +49,11 @@ META = {
                   "checks/c11_gen.py. Modelled, not verified: call-by-name without memoisation, integers only, "
                   "no enums/dicts/merge in the model (they are in the interpreter table). Partial: the erasure theorems prove "
                   "the direction bare-outcome => contracted-outcome (C11_full_parametric_erasure, both directions, is stated and "
-                  "type-checked only), for prenex type variables with ordered closed records; row variables are covered by the "
-                  "tail theorems and, like higher-rank and mid-spine quantifiers, by the correspondence runs. Known findings "
+                  "type-checked only; by determinism the open case is only a bare run that never produces an outcome), for prenex "
+                  "type and record-row variables, records with fields in the order of the type and the tail fields after them, "
+                  "row-polymorphic records only passed/projected (no insert/remove in the typed criterion); higher-rank and "
+                  "mid-spine quantifiers, insert/remove on row-polymorphic records and aliases are covered by the tail theorems "
+                  "and the correspondence runs. Known findings "
                   "(design-level, not fixed): sealing keys restart at 0 for every generated contract and are "
                   "per contract rather than per instantiation.",
 }
